@@ -277,6 +277,7 @@ impl Sweep {
                     }
                 }
                 Err(at) => {
+                    *triples += r_axis.len() as u64;   // the row was attempted; the panic is the finding
                     // find the triple: repeat the row call by call
                     let mut witness = String::new();
                     for (_, rg) in r_axis.iter() {
@@ -338,6 +339,7 @@ impl Sweep {
                     }
                 }
                 Err(at) => {
+                    *triples += r_axis.len() as u64;
                     if out.len() < 200 {
                         out.push((vec!["C01"], format!("panic@{}", short_at(&at)), json!({"language": lang.as_str(), "script": stext, "panic": at})));
                     }
